@@ -38,7 +38,7 @@ ASSUMPTIONS = ["when a new-date notification must be sent is not stated by the p
                "episodes aborted by TrackRecord's duplicate-timestamp rejection (DESIGN 4.2-c) are judged on the delivered prefix"]
 REQUIRED = ["C04:exchange-exactly-once", "C04:delivery-sequence", "C04:second-observer", "C04:timestamps-nondecreasing", "C04:env-notification-stamp",
             "C04:clock-in-callback", "C04:rebalance-stamp", "C04:latency-refused"]
-REQUIRED_CATS = ["observer:inherited-callbacks", "second-env-same-transmitter", "add_timesteps", "add_custom_events", "latency>0", "markov", "warmup", "late-fold", "episode-length", "event-after-grid", "event-before-grid",
+REQUIRED_CATS = ["observer:inherited-callbacks", "second-env-same-transmitter", "events-added-on-empty-timesteps-then-second-env", "add_timesteps", "add_custom_events", "latency>0", "markov", "warmup", "late-fold", "episode-length", "event-after-grid", "event-before-grid",
                  "event-at-latency-bound"]
 REQUIRED_HITS = ["Broker.rebalance"]
 TECHNIQUE = "runtime monitoring: recording observer + hook markers compared with an independent delivery-schedule model"
@@ -107,6 +107,11 @@ def case(ctx, i, tier):
     for _ in range(rng.randint(0, 2)):
         evs.append(mk(grid[-1] + timedelta(seconds=rng.uniform(1e-6, 1e5))))
         ctx.cat("event-after-grid")
+    holes = set()
+    if rng.random() < 0.25 and n >= 3:
+        # some grid points bear no event at all (they are not steps of any episode - yet)
+        holes = {k for k in range(n) if rng.random() < 0.4}
+        evs = [e for e in evs if bisect.bisect_left(grid, e.time) not in holes]
     rng.shuffle(evs)
     markov = rng.random() < 0.2
     warm = rng.choice([None, None, timedelta(seconds=rng.choice([30, 4000, 90000]))])
@@ -189,6 +194,17 @@ def case(ctx, i, tier):
                 # a NEW environment on the SAME transmitter with a different latency (data loaded
                 # once, environment rebuilt): the latent split must follow the new latency
                 L = rng.choice(others)
+                if holes and rng.random() < 0.7:
+                    # ... after MORE events were loaded, on grid points that had none: the folds (already used by
+                    # the first environment) gain steps
+                    more = [mk(grid[k] - timedelta(seconds=rng.choice([0, 0, 1e-6]))) for k in sorted(holes) if rng.random() < 0.7]
+                    tr.add_events(more)
+                    evs = evs + more
+                    order = {id(e): k for k, e in enumerate(evs)}
+                    live = [e for e in evs if slot(e) is not None and not (markov and T(e) < G[0])]
+                    live.sort(key=lambda e: (T(e), order[id(e)]))
+                    if more:
+                        ctx.cat("events-added-on-empty-timesteps-then-second-env")
                 sink, sink2 = ep.Sink(), ep.Sink()
                 env = TradingEnv(action_space=BoxPortfolio([ETF("X"), ETF("Y")]), transmitter=tr,
                                  state=ep.Rec(sink, features=[ep.RecAB(sink2)]), latency=L, episode_length=eplen)
